@@ -56,6 +56,8 @@ def cls(c):
         return "field"
     if k.startswith("multi_one_bad"):
         return "multi_one_bad"
+    if k.startswith("repeated_entry:"):
+        return "repeated_entry"
     if k.startswith("fault:"):
         return "fault:" + k.split(":")[1]
     if k.startswith("replayed_signature_altered"):
@@ -103,7 +105,7 @@ def main():
                           "(NewParSigEx + NewEth2Verifier + NewDutyGater); non-trivial = the request carries an alteration of an otherwise valid submission "
                           "(each reflection-enumerated leaf field with the original signature; the same re-signed with the right share; wrong share; wrong validator; other domain; other fork; zero/random/infinity/foreign-key signature; "
                           "validator unknown to the beacon node / not in the lock / index of another validator; peers: out-of-range/zero/negative/other share index, entry filed under another/unknown public key, "
-                          "duty outside the gater window (epoch offsets, the exact first/last slot of the window, and absolute slots 2^31, 2^53, 2^60, 2^63-1, 2^63, 2^64-1 around validly signed objects), objects whose own signing epoch is the first epoch of a fork of the beacon mock (2048, 50688; attestations with the slot still in the previous fork) signed for the own epoch and with the neighbouring fork's domain, and objects signed with a far-away fork's domain after the same component served that fork, objects at epochs 0, 1 and at the last epoch before / first epoch of every fork of the mock's schedule signed under the fork version the spec prescribes and under each other fork version of the schedule (compute_domain evaluated in the harness from the fork schedule, never GenesisDomain except for builder registrations), a beacon-node lookup fault of each kind at each lookup position around valid / wrong-share / wrong-domain / altered submissions, a signature that was let in once re-presented over altered content, invalid duty type, bare-signature duty type, duty-type confusion, one bad entry among good ones at each position); distinct by hash of (endpoint, type, class, label)")
+                          "duty outside the gater window (epoch offsets, the exact first/last slot of the window, and absolute slots 2^31, 2^53, 2^60, 2^63-1, 2^63, 2^64-1 around validly signed objects), objects whose own signing epoch is the first epoch of a fork of the beacon mock (2048, 50688; attestations with the slot still in the previous fork) signed for the own epoch and with the neighbouring fork's domain, and objects signed with a far-away fork's domain after the same component served that fork, objects at epochs 0, 1 and at the last epoch before / first epoch of every fork of the mock's schedule signed under the fork version the spec prescribes and under each other fork version of the schedule (compute_domain evaluated in the harness from the fork schedule, never GenesisDomain except for builder registrations), a beacon-node lookup fault of each kind at each lookup position around valid / wrong-share / wrong-domain / altered submissions, a signature that was let in once re-presented over altered content, requests of the batch-taking validator-API handlers with repeated (validator, slot) entries mixing valid and invalid items in every order (valid then wrong-share / zero / altered / other-fork, invalid then valid, valid then valid with other content, the same object twice, several validators interleaved), invalid duty type, bare-signature duty type, duty-type confusion, one bad entry among good ones at each position); distinct by hash of (endpoint, type, class, label)")
     table = collections.defaultdict(lambda: collections.Counter())
     outcome = collections.Counter()
     pre_texts = collections.Counter()
